@@ -694,10 +694,18 @@ impl SchemaWriteTransaction<'_> {
             ref_cache,
         } = self;
 
+        #[cfg(feature = "verif-hooks")]
+        let _ = crate::verif_hooks::point("schema.c.start");
         unique_cache.commit();
         ref_cache.commit();
+        #[cfg(feature = "verif-hooks")]
+        let _ = crate::verif_hooks::point("schema.c.classes");
         classes.commit();
+        #[cfg(feature = "verif-hooks")]
+        let _ = crate::verif_hooks::point("schema.c.attributes");
         attributes.commit();
+        #[cfg(feature = "verif-hooks")]
+        let _ = crate::verif_hooks::point("schema.c.done");
         Ok(())
     }
 
